@@ -12,6 +12,8 @@ mod c10;
 mod c11;
 mod c14;
 mod c15;
+mod c17;
+mod c13;
 
 pub type Gen = fn(&mut util::Rng, &str) -> String;
 pub type Exec = fn(&[&str]) -> String;
@@ -24,6 +26,9 @@ fn table(prop: &str) -> Option<(Gen, Exec)> {
         "C11" => Some((c11::gen, c11::exec)),
         "C14" => Some((c14::gen, c14::exec)),
         "C15" => Some((c15::gen, c15::exec)),
+        "C17" => Some((c17::gen, c17::exec)),
+        "C13" => Some((c13::gen, c13::exec)),
+        "C12" => Some((c13::gen12, c13::exec)),
         _ => None,
     }
 }
